@@ -117,10 +117,15 @@ def pack_exception(e, dumps):
     tb = _pack_traceback(exc_traceback)
     try:
         result = dumps((e, tb))
-    except Exception as e:
-        exc_type, exc_value, exc_traceback = sys.exc_info()
-        tb = _pack_traceback(exc_traceback)
-        result = dumps((e, tb))
+    except Exception as pickling_error:
+        try:
+            # The exception object itself cannot be pickled (e.g. it holds a
+            # lock): send one of the same type with the same arguments instead.
+            result = dumps((type(e)(*e.args), tb))
+        except Exception:
+            e = pickling_error
+            tb = _pack_traceback(e.__traceback__)
+            result = dumps((e, tb))
     return result
 
 
